@@ -555,9 +555,12 @@ pub fn check(hdr: &str, lines: &[String], trace: &[(String, Vec<String>)], mon: 
                 }
             }
         } else if func == Some(0) && !herr && delivered_now && accepted_master && seq.is_some() && frag.as_ref().map(|f| f.2[0] & 0x10 == 0).unwrap_or(false) && matches!(bc_pending, Some((1, _))) && unsol_waiting.is_some() {
-            // a solicited confirm during the unsolicited wait clears a mandatory broadcast silently
-            bc_pending = None;
+            // a solicited confirm handled inside the unsolicited wait clears a mandatory broadcast silently; whether
+            // this confirm was handled there or elsewhere (or dropped) is not visible in the trace: uncertain, the
+            // next response decides
+            bc_pending = Some((1, false));
         }
+        let read_echo_op = func == Some(1) && in_sol_wait && frag.as_ref().map(|f| Some(&f.2) == last_read_frag.as_ref()).unwrap_or(false) && !has_cb(outs, "cb sol_new_request");
         for x in &t {
             let b = &x.bytes;
             if b.len() < 4 {
@@ -784,9 +787,11 @@ pub fn check(hdr: &str, lines: &[String], trace: &[(String, Vec<String>)], mon: 
                 in_sol_wait = t.iter().any(|x| x.bytes.len() >= 2 && x.bytes[1] == 0x81 && x.bytes[0] & 0x20 != 0);
             }
         }
+        // (an echo of a READ repeated during the confirm wait re-sends a stored fragment: the series position
+        // is still that of the fragment awaiting its confirm)
         for x in &t {
             if x.bytes.len() >= 2 {
-                if x.bytes[1] == 0x81 {
+                if x.bytes[1] == 0x81 && !read_echo_op {
                     last_sol = x.bytes[0] & 0x0F;
                     last_sol_tx = Some(x.bytes.clone());
                 } else if x.bytes[1] == 0x82 {
